@@ -325,3 +325,7 @@ func verif_C20_races() {
 	verifAssert(verifGoroutinesAlive() == 0, "C20.races-no-goroutine-left")
 	verifReach("C20.races-end")
 }
+
+// verif_C20_lmtp_case: no deadlock whatever the spelling of the recipients (see
+// verifLMTPCase in zz_verif_c13.go).
+func verif_C20_lmtp_case() { verifLMTPCase("C20") }
